@@ -31,6 +31,7 @@ var Properties = map[string]PropDef{
 			{Name: "types.ZZC08Oracle", Quick: map[string]int{"K": 1, "D": 1}, Thorough: map[string]int{"K": 2, "D": 1}, Depth: 200},
 			{Name: "types.ZZC08Oracle", Quick: map[string]int{"K": 0, "D": 1}, Thorough: map[string]int{"K": 1, "D": 2}, Depth: 200},
 			{Name: "types.ZZC08Laws", Quick: map[string]int{"K": 2, "D": 0}, Thorough: map[string]int{"K": 2, "D": 1}, Depth: 200},
+			{Name: "types.ZZC08Oracle", Quick: map[string]int{"K": 2, "D": 1, "DS": 1, "DT": 3, "MENU": 1}, Depth: 200, ThoroughOnly: true, Note: "left/right nested products against names: the printed memo key must keep them apart"},
 		},
 	},
 	"C10": {
@@ -62,6 +63,7 @@ var Properties = map[string]PropDef{
 			{Name: "types.ZZC16Infer", Quick: map[string]int{"K": 1, "D": 2}},
 			{Name: "types.ZZC16Infer", Quick: map[string]int{"K": 3, "D": 1, "LEAN": 2}},
 			{Name: "types.ZZC16Infer", Quick: map[string]int{"K": 2, "D": 1}, ThoroughOnly: true},
+			{Name: "types.ZZC16Infer", Quick: map[string]int{"K": 3, "D": 1, "LEAN": 3}, ThoroughOnly: true},
 		},
 	},
 	"C11": {
@@ -81,7 +83,7 @@ var Properties = map[string]PropDef{
 	},
 	"C12": {
 		ID:     "C12",
-		Bounds: "lexer: rune strings as C11 (quick length <= 3, thorough <= 4; representative alphabet <= 5 / <= 6); expandProcesses: statement lists of length <= 3 (quick) / <= 4 (thorough) of all five kinds with symbolic names",
+		Bounds: "lexer: rune strings as C11 (quick length <= 3, thorough <= 4; representative alphabet <= 5 / <= 6; comment alphabet {/ * a} <= 7 / <= 9); expandProcesses: statement lists of length <= 3 (quick) / <= 4 (thorough) of all five kinds with symbolic names",
 		Assumptions: []string{
 			"reference tokenizer transcribed from the README grammar (keywords, punctuation, comments, whitespace as the scanner defines it)",
 			"spellings the scanner accepts but the README does not document (-o, %, drop, receive, forward, accept, ...) and block comments containing '*' are assumed away",
@@ -91,6 +93,7 @@ var Properties = map[string]PropDef{
 		Harnesses: []HarnessDef{
 			{Name: "parser.ZZC12Lex", Quick: map[string]int{"N": 3}, Thorough: map[string]int{"N": 4}, Depth: 60, Loop: 60, MaxPaths: 3000000},
 			{Name: "parser.ZZC12Lex", Quick: map[string]int{"N": 5, "ALPHA": 1}, Thorough: map[string]int{"N": 6, "ALPHA": 1}, Depth: 60, Loop: 60, MaxPaths: 3000000},
+			{Name: "parser.ZZC12Lex", Quick: map[string]int{"N": 7, "ALPHA": 2}, Thorough: map[string]int{"N": 9, "ALPHA": 2}, Depth: 60, Loop: 60, MaxPaths: 3000000, Note: "comment alphabet {/ * a}"},
 			{Name: "parser.ZZC12Expand", Quick: map[string]int{"N": 3}, Thorough: map[string]int{"N": 4}},
 		},
 	},
@@ -142,6 +145,37 @@ var Properties = map[string]PropDef{
 		Harnesses: []HarnessDef{
 			{Name: "types.ZZC15Types", Quick: map[string]int{"D": 2}},
 			{Name: "process.ZZC15Forms", Quick: map[string]int{"D": 1}, Thorough: map[string]int{"D": 2, "NAMEPICK": 0}},
+		},
+	},
+	"C04": {
+		ID: "C04", AssertPrefix: "C04.",
+		Bounds:      "one transition step of one process in polarised asynchronous mode: 14 form/side combinations (send, receive, select, case with 2 branches, close, wait, cast, shift, cut, print) x every incoming data rule (SND..BRA) x labels over {l,m,n}; the duplication step for 2 providers over 3 body kinds; the call step for 4 provider-passing conventions",
+		Assumptions: []string{"channels are FIFO queues of the capacity CreateFreshChannel asks for; a spawned goroutine runs after the step (run-to-completion)", "continuations are probes that record the process state they are resumed in and the substitutions applied to them", "context.Background() stands for the run's context (cancellation is outside the step claims); heartbeat channel given capacity 4096; logging off"},
+		Outside:     "PARTIAL: whole runs, orders across processes, causal order of prints, recursion; forward / split / drop steps, control messages (FWD, GC) at receivers, the non-polarised transition functions",
+		Harnesses:   []HarnessDef{{Name: "process.ZZC04Step"}, {Name: "process.ZZC04Dup"}, {Name: "process.ZZC13CallCopies"}},
+	},
+	"C01": {
+		ID: "C01", AssertPrefix: "C01.",
+		Bounds:      "one principal cut: channel type A of depth<=1 over K<=1 type names (quick K=0, thorough K=1), provider form P among 7, client form Q among 7, both accepted by the real typecheckForm (probes accepting), labels over {l,m,n}; executed in polarised asynchronous and synchronous mode",
+		Assumptions: []string{"the hypothesis is the real typechecker's verdict (vn.Assume(accepted)); the forms are then rebuilt over initialised channels and run on the engine's goroutine/channel model", "run-to-completion scheduling: the receiver blocks, the sender runs, the receiver resumes"},
+		Outside:     "PARTIAL: closed programs with more than one cut, all schedules, GOMAXPROCS, monitor, the non-polarised mode, forwards / duplication / drop between the two sides",
+		Harnesses:   []HarnessDef{{Name: "process.ZZC01Cut", Quick: map[string]int{"K": 0}, Thorough: map[string]int{"K": 1}}},
+	},
+	"C13": {
+		ID: "C13", AssertPrefix: "C13.", RaceReplay: true,
+		Bounds:      "two sufficient conditions only: (1) every pair of the steps {CreateFreshChannel, SpawnThenTransition, terminate, ProcessCount, DeadProcessCount} executed as two threads on one RuntimeEnvironment touches the three shared counters only atomically (access log of the executor); (2) a call works on a private copy of the function body",
+		Assumptions: []string{"the executor logs every load/store/atomic operation on the watched cells with the thread that performed it; a conflict is a pair from different threads on one cell with a write and a non-atomic member", "a counterexample is confirmed by running the same two steps as real goroutines under `go1.26.8 test -race`"},
+		Outside:     "PARTIAL: the dynamic property itself (all programs x schedules), channel internals, the monitor and web server, AST ownership after cut / duplication (only the call step is checked)",
+		Harnesses:   []HarnessDef{{Name: "process.ZZC13Counters"}, {Name: "process.ZZC13CallCopies"}},
+	},
+	"C19": {
+		ID: "C19", AssertPrefix: "C19.",
+		Bounds:      "histories of length 2 of sequential kernels: ParseString on a text of <=2 runes after a text of <=1 rune (thorough <=3 after <=2); Typecheck on a program built from 5 defect switches after another such program (with its worker drained)",
+		Assumptions: []string{"every path of every harness of every check additionally fails (GLOBALWRITE, reported as inconclusive) on a store to a package-level variable of the Grits packages after init"},
+		Outside:     "PARTIAL: executing programs (leftover goroutines, channels, timers of finished runs), the web server and benchmark drivers, histories longer than 2",
+		Harnesses: []HarnessDef{
+			{Name: "parser.ZZC19ParseTwice", Quick: map[string]int{"N1": 1, "N2": 2}, Thorough: map[string]int{"N1": 2, "N2": 2}, Depth: 100, Loop: 100, MaxPaths: 3000000},
+			{Name: "process.ZZC19TypecheckTwice"},
 		},
 	},
 	"C06": {
@@ -203,6 +237,7 @@ func c09Harnesses() []HarnessDef {
 		hs = append(hs, h)
 	}
 	hs = append(hs, HarnessDef{Name: "process.ZZC09Worker"})
+	hs = append(hs, HarnessDef{Name: "zzpub.ZZC09Program", Depth: 300, Loop: 2000})
 	hs = append(hs, HarnessDef{Name: "types.ZZC09Accepted", Quick: map[string]int{"K": 2, "D": 1}, Depth: 200})
 	hs = append(hs, HarnessDef{Name: "types.ZZC09Accepted", Quick: map[string]int{"K": 1, "D": 2}, Depth: 200})
 	return hs
